@@ -24,7 +24,24 @@ import (
 // Unsafe turns any value that would otherwise be considered safe,
 // into an unsafe value.
 func Unsafe(a interface{}) interface{} {
-	return unsafeWrap{a}
+	return unsafeWrap{unwrap(a)}
+}
+
+// unwrap removes the wrappers found directly around a value: when
+// Safe() and Unsafe() are nested, the outermost one decides, so the
+// inner ones carry no information. (The printer only recognizes one
+// level of wrapping before it dispatches to formatting methods.)
+func unwrap(a interface{}) interface{} {
+	for {
+		switch w := a.(type) {
+		case safeWrapper:
+			a = w.a
+		case unsafeWrap:
+			a = w.a
+		default:
+			return a
+		}
+	}
 }
 
 // UnsafeWrap is the type of wrapper produced by Unsafe.
@@ -51,7 +68,7 @@ func (w unsafeWrap) Format(s origFmt.State, verb rune) {
 // should be taken as a signal that a new abstraction is missing.
 // The implementation is also slow.
 func Safe(a interface{}) i.SafeValue {
-	return safeWrapper{a}
+	return safeWrapper{unwrap(a)}
 }
 
 // SafeWrapper is the type of wrapper produced by Safe.
